@@ -648,7 +648,7 @@ pub fn drive(progs: &[Prog]) {
     let mut out = std::io::BufWriter::new(stdout.lock());
     for p in progs {
         if let Some(o) = &only {
-            if o != p.id {
+            if !o.split(";;").any(|x| x == p.id) {
                 continue;
             }
         }
@@ -690,7 +690,7 @@ pub fn drive(progs: &[Prog]) {
             }
         }
         for row in &allrows {
-            let pn = row.get(PANIC_SLOT).copied().unwrap_or(0);
+            let pn = if sweep { row.get(PANIC_SLOT).copied().unwrap_or(0) } else { 0 };
             let mut rl0: Vec<String> = Vec::new();
             let mut psite: Option<String> = None;
             if pn > 0 {
